@@ -382,6 +382,7 @@ class DesignVariableNode(DSGNode):
                 value = 0
             elif value >= len(self.options):
                 value = len(self.options)-1
+            value = int(value)  # Discrete values are option indices
         else:
             lower, upper = self.bounds
             if value < lower:
